@@ -168,6 +168,11 @@ static void print_battery(hwloc_const_bitmap_t b, const refset *m)
     char *full = malloc((size_t)need + 1);
     int r = FMT[f].sn(full, (size_t)need + 1, b);
     if (r != need || strlen(full) != (size_t)need) { snprintf(key, sizeof(key), "c04.%s.snprintf.length", FMT[f].name); mc_violation(key, "%s: needed %d, full call returned %d, strlen %zu", mc_case_text(), need, r, strlen(full)); }
+    /* a generous buffer gives the same length and text (a printer that under-reports whenever it truncates is consistent with
+     * itself at every size up to its own answer + 1) */
+    { size_t bl = (size_t)need + 65; char *big = malloc(bl); memset(big, 0x5a, bl); r = FMT[f].sn(big, bl, b); MC.transitions++;
+      if (r != need || strcmp(big, full)) { snprintf(key, sizeof(key), "c04.%s.snprintf.generous", FMT[f].name); mc_violation(key, "%s: snprintf(NULL,0) = %d and \"%s\", a %zu-byte buffer returns %d and \"%s\"", mc_case_text(), need, full, bl, r, big); }
+      free(big); }
     /* every length 0..need+1 in an exact-size heap buffer */
     for (int len = 0; len <= need + 2; len++) {
       char *buf = malloc((size_t)len ? (size_t)len : 1);
